@@ -86,7 +86,7 @@ def generate_ibm3624_pin(
 
     validation_data = pan[pan_verify_offset : pan_verify_length + pan_verify_offset]
 
-    if len(validation_data) != pan_verify_length:
+    if len(validation_data) != pan_verify_length or pan_verify_offset > len(pan):
         raise ValueError("PAN verify offset and length must be within provided PAN")
 
     validation_data = validation_data[:16].ljust(16, pan_pad[:1]).upper()
@@ -181,7 +181,7 @@ def generate_ibm3624_offset(
 
     validation_data = pan[pan_verify_offset : pan_verify_length + pan_verify_offset]
 
-    if len(validation_data) != pan_verify_length:
+    if len(validation_data) != pan_verify_length or pan_verify_offset > len(pan):
         raise ValueError("PAN verify offset and length must be within provided PAN")
 
     validation_data = validation_data[:16].ljust(16, pan_pad[:1]).upper()
